@@ -88,12 +88,18 @@ impl BigNumber {
     }
 
     pub fn is_bit_set(&self, n: i32) -> ClResult<bool> {
+        if n < 0 {
+            return Ok(false);
+        }
         let bits = n as usize;
         let res = &self.bn >> bits;
         Ok(res.is_odd())
     }
 
     pub fn set_bit(&mut self, n: i32) -> Result<&mut BigNumber, ClError> {
+        if n < 0 {
+            return Err(err_msg!("Invalid bit index"));
+        }
         let bits = n as usize;
         let mask = BigInt::one() << bits;
         self.bn |= mask;
